@@ -519,13 +519,6 @@ def stepLocal (F : Flags) (o : Obs) (x : Act) (ev : Ev) : Option (Act × Eff) :=
   | .exit, .released => some ({ x with phase := .done }, .none)
   | _, _ => none
 
--- the equation lemmas of `stepLocal` (one per accepted (event, phase) pair) are generated here,
--- once, under a raised limit; every `simp [stepLocal]` downstream reuses them
-set_option maxHeartbeats 2000000 in
-theorem stepLocal_exit_early (F : Flags) (o : Obs) (x : Act) (h : x.phase = .early) :
-    stepLocal F o x .exit = some ({ x with phase := .done }, .none) := by
-  simp only [stepLocal, h]
-
 /-- has the registered execution of key `k` finished, and what did it end with?  (The bare
 outcome, not the executing activation's own — wrapped — result.) -/
 def execResultOf (c : Config) (k? : Option Nat) : Option Outcome :=
